@@ -241,7 +241,7 @@ def walk_run_arm(F, rep, variant, *, values=(), ords=(), bools=(), payload=None,
     w = kwalk.Walker(F, body, on_term=m.on_term, on_stmt=m.on_stmt, ordered_marks=ordered,
                      call_result=injector(F, body, values=values, ords=ords, bools=bools, state=variant,
                                           payload=payload, extra=extra_hook),
-                     want_ret=True, max_states=max_states, ret_prefixes=("0", "BS", "VS"))
+                     want_ret=True, max_states=max_states, ret_prefixes=("0", "BS", "VS", "#"))
     outs = w.run(0, {})
     rep.states += w.states_explored
     return outs
